@@ -13,13 +13,14 @@ Stacks_ == <<
   << [t |-> "zero", e |-> 100] >> >>                                         \* 8: conductivity 0
 VARIABLES c, w, phase
 Cases == [bounds : {"EXTERIOR", "ADIABATIC"}, tilt : {"TOP", "SIDE", "BOTTOM"}, stack : DOMAIN Stacks_, this : {"C"}, next : {"none"},
-          vent : {"none"}, depth : {0}, perim : {FALSE}, glazed : {FALSE}]
+          vent : {"none"}, depth : {0}, perim : {FALSE}, glazed : {FALSE}, over : {FALSE}]
    \cup [bounds : {"INTERIOR"}, tilt : {"TOP", "SIDE", "BOTTOM"}, stack : DOMAIN Stacks_, this : {"C", "U", "N"},
-         next : {"none", "dangling", "C", "U", "N"}, vent : {"own", "global", "none"}, depth : {0}, perim : {FALSE}, glazed : BOOLEAN]
+         next : {"none", "dangling", "C", "U", "N"}, vent : {"own", "global", "none"}, depth : {0}, perim : {FALSE}, glazed : BOOLEAN, over : {FALSE}]
    \* ground contact: the space may be conditioned or not, and its west side may border another space (next) instead of
    \* being adiabatic (the exposed perimeter depends on both)
    \cup [bounds : {"GROUND"}, tilt : {"TOP", "SIDE", "BOTTOM"}, stack : DOMAIN Stacks_, this : {"C", "U"}, next : {"none", "C", "U"},
-         vent : {"none"}, depth : {0, 50, 150, 300, 400}, perim : BOOLEAN, glazed : {FALSE}]
+         \* (over: the space also owns a floor over outside air, beside the slab: the ground formulas speak of the slab alone)
+         vent : {"none"}, depth : {0, 50, 150, 300, 400}, perim : BOOLEAN, glazed : {FALSE}, over : BOOLEAN]
 WinCases == [ff : {0, 10, 20, 50, 100}, du : {0, 10, 25, 50}, ug : {60, 110, 320, 570}, uf : {60, 110, 320, 570}, g : {0, 30, 60, 85, 100},
              gsh : {-1, 0, 10, 45, 100}, glass : {"ok", "nil", "dangling"}, frame : {"ok", "nil", "dangling"}]
 NoCase == [bounds |-> "-"]
